@@ -1442,14 +1442,15 @@ func TestVerifC16(t *testing.T) {
 	var parts []partDef
 	if e.thorough {
 		parts = []partDef{
-			{Name: "locks", Inits: []initState{iTrueOn}, Ops: locksAlphabet(true, false), MaxDepth: 4, MaxDevs: 0, Share: 30, Sym: true},
-			{Name: "locks-faults", Inits: []initState{iTrueOn, iP1, iP1Q2}, Ops: faultAlphabet(true), MaxDepth: 3, MaxDevs: 1, Share: 20, Sym: true},
-			{Name: "locks-multi", Inits: []initState{iTrueOn, iP1Q2, iN1}, Ops: multiAlphabet(true), MaxDepth: 3, MaxDevs: 1, Share: 20, Sym: true},
-			{Name: "locks-readonly-off", Inits: []initState{iTrueOff}, Ops: locksAlphabet(false, false), MaxDepth: 3, MaxDevs: 0, Share: 5, Sym: true},
+			{Name: "locks", Inits: []initState{iTrueOn}, Ops: locksAlphabet(true, false), MaxDepth: 4, MaxDevs: 0, Share: 15, Sym: true},
+			{Name: "locks-faults", Inits: []initState{iTrueOn, iP1, iP1Q2}, Ops: faultAlphabet(true), MaxDepth: 3, MaxDevs: 1, Share: 27, Sym: true},
+			{Name: "locks-multi", Inits: []initState{iTrueOn, iP1Q2, iN1, iPQ1, iP1}, Ops: multiAlphabet(true), MaxDepth: 2, MaxDevs: 1, Share: 12, Sym: true},
+			{Name: "locks-multi-deep", Inits: []initState{iTrueOn, iP1Q2, iN1}, Ops: multiAlphabet(false), MaxDepth: 3, MaxDevs: 1, Share: 12, Sym: true},
+			{Name: "locks-readonly-off", Inits: []initState{iTrueOff}, Ops: locksAlphabet(false, false), MaxDepth: 3, MaxDevs: 0, Share: 3, Sym: true},
 			{Name: "push", Inits: []initState{iTrueOn, iP1, iP2, iQ1, iQ2, iP1Q2, iP2Q1, iPQ1, iPQ2}, Ops: pushAlphabet(true, []int{1}, true), MaxDepth: 4, MaxDevs: 1, Share: 30},
-			{Name: "push-deep", Inits: []initState{iTrueOn, iP1Q2, iP2Q1}, Ops: pushAlphabet(true, []int{1}, false), MaxDepth: 5, MaxDevs: 0, Share: 17},
-			{Name: "push-two-users", Inits: []initState{iTrueOn}, Ops: pushAlphabet(true, []int{0, 1}, false), MaxDepth: 4, MaxDevs: 0, Share: 7, Sym: true},
-			{Name: "push-verify-unset-or-false", Inits: []initState{iUnsetP1, iFalseP1, iUnsetOn}, Ops: pushAlphabet(false, []int{1}, true), MaxDepth: 3, MaxDevs: 1, Share: 4},
+			{Name: "push-deep", Inits: []initState{iTrueOn, iP1Q2, iP2Q1}, Ops: pushAlphabet(true, []int{1}, false), MaxDepth: 5, MaxDevs: 0, Share: 10},
+			{Name: "push-two-users", Inits: []initState{iTrueOn}, Ops: pushAlphabet(true, []int{0, 1}, false), MaxDepth: 4, MaxDevs: 0, Share: 3, Sym: true},
+			{Name: "push-verify-unset-or-false", Inits: []initState{iUnsetP1, iFalseP1, iUnsetOn}, Ops: pushAlphabet(false, []int{1}, true), MaxDepth: 3, MaxDevs: 1, Share: 2},
 		}
 	} else {
 		parts = []partDef{
